@@ -1,5 +1,6 @@
 import Refine.Lemmas.PartMeshbParse
 import Refine.Lemmas.PartMeshbRoute
+import Refine.Lemmas.PartMeshbCount
 import Refine.Props.C07
 
 /-!
@@ -109,7 +110,71 @@ example : (parseWith Cfg.current 3 chunkConst lastVertexFile).toOption.map
 example : [1, 2, 3].map (fun np => partRead np onePastFile) = [.error .invalid, .error .invalid, .error .invalid] := by
   decide +kernel
 
-/-! ### the declared counts are NOT validated: two counterexamples (findings/partmeshb-count-*) -/
+/-! ### the declared counts (reader of /repo since 4474557: `ref_part_meshb_count_fits`) -/
+
+/-- **accepted ⇒ every declared cell / geometry count fits**: rank 0 accepted the file ⇒ for every cell group and
+    every geometry type whose keyword is in the file, the declared count `n` (read by `ref_part_meshb_long` at the
+    bytes `s0`, leaving `s`) satisfies `0 ≤ n ≤ INT_MAX` and `n ≤ (bytes after the count) / 4` -/
+theorem partCell_count_fits (cfg : Cfg) (np cm : Nat) (bs : Bytes) (p : Parsed)
+    (h : parseWith cfg np cm bs = .ok p) :
+    ∃ v kp, header cfg bs = .ok (v, kp) ∧
+      ∀ kw, (kw ∈ cellInfos.map (·.kw) ∨ kw ∈ [40, 41, 42]) → ∀ next s0 n s,
+        jump v bs kp kw = .ok (some (next, s0)) → rdLong v s0 = .ok (n, s) →
+        0 ≤ n ∧ n ≤ INT_MAX ∧ n ≤ ((s.length / 4 : Nat) : Int) := by
+  obtain ⟨v, kp, _, _, hh, _, hg, hq, _⟩ := parse_inv h
+  refine ⟨v, kp, hh, ?_⟩
+  intro kw hkw next s0 n s hj hl
+  rw [← countFits_iff]
+  rcases hkw with hkw | hkw
+  · obtain ⟨ci, hci, rfl⟩ := List.mem_map.1 hkw
+    obtain ⟨g, hs⟩ := rdCellGroupsP_sections cellInfos hg ci hci
+    exact kwSectionL_fits hs hj hl
+  · have : ∃ t ∈ [0, 1, 2], kw = 40 + t := by
+      simp only [List.mem_cons, List.not_mem_nil, or_false] at hkw ⊢
+      rcases hkw with rfl | rfl | rfl
+      · exact ⟨0, Or.inl rfl, rfl⟩
+      · exact ⟨1, Or.inr (Or.inl rfl), rfl⟩
+      · exact ⟨2, Or.inr (Or.inr rfl), rfl⟩
+    obtain ⟨t, ht, rfl⟩ := this
+    obtain ⟨g, hs⟩ := rdGeomTypesP_sections [0, 1, 2] hq t ht
+    exact kwSectionL_fits hs hj hl
+
+/-- **the read loops make progress and return**: for a count that passed the check (`0 ≤ n ≤ INT_MAX`), any chunk
+    constant `1 ≤ cm ≤ INT_MAX` and `np ≥ 1`: `chunk = (REF_INT)MAX(cm, n/np) ≥ 1` (no truncation), and
+    `section_size = MIN(chunk, (REF_INT)(n - read)) ≥ 1` whenever `0 ≤ read < n`; hence the fuel `n + 1` of the model
+    is never exhausted and NO byte string makes rank 0's reading diverge (`parseWith Cfg.current … ≠ error diverge`:
+    the C loops `while (ncell_read < ncell)` / `while (ngeom_read < ngeom)` return) -/
+theorem partCell_loop_progress (np cm : Nat) (hcm : 1 ≤ cm) (hcmax : (cm : Int) ≤ INT_MAX) (hnp : 1 ≤ np) :
+    (∀ n : Int, 0 ≤ n → n ≤ INT_MAX →
+      1 ≤ chunkOf cm n np ∧ chunkOf cm n np ≤ INT_MAX ∧
+      ∀ read : Int, 0 ≤ read → read < n → 1 ≤ sectionSize (chunkOf cm n np) n read) ∧
+    ∀ bs : Bytes, parseWith Cfg.current np cm bs ≠ .error .diverge := by
+  refine ⟨?_, parse_ne_diverge hcm hcmax hnp⟩
+  intro n h0 h1
+  obtain ⟨_, hc, hm⟩ := chunkOf_bounds hcm hcmax hnp h0 h1
+  exact ⟨hc, hm, fun read r0 r1 => sectionSize_pos hc r0 r1 h1⟩
+
+/-- **no `int` overflow in the buffer sizes**: for a file of at most `overflowFreeBytes * np = 306 783 376 · np`
+    bytes (≈ 292 MiB per rank), a count that passed the check (so `n ≤ bytes/4`) and the chunk constant of the C,
+    `size_per * chunk` and `(node_per + 1) * chunk` — the element counts of `sent_c2n`, `c2n`, `c2n_int`, `c2n_long` —
+    are in `[1, 2^31)` for every cell group: `mallocInts` never returns the model's `undefined` -/
+theorem partCell_no_int_overflow (np : Nat) (hnp : 1 ≤ np) (len : Nat) (hlen : len ≤ overflowFreeBytes * np)
+    (n : Int) (h0 : 0 ≤ n) (h1 : n ≤ INT_MAX) (hfit : n ≤ ((len / 4 : Nat) : Int)) :
+    ∀ ci ∈ cellInfos,
+      (ci.sizePer : Int) * chunkOf chunkConst n np ≤ INT_MAX ∧
+      ((ci.nodePer : Int) + 1) * chunkOf chunkConst n np ≤ INT_MAX ∧
+      0 ≤ (ci.sizePer : Int) * chunkOf chunkConst n np ∧ 0 ≤ ((ci.nodePer : Int) + 1) * chunkOf chunkConst n np := by
+  intro ci hci
+  obtain ⟨c1, c2⟩ := chunk_small hnp h0 hfit hlen h1
+  obtain ⟨a, b⟩ := cellInfos_nodePer_le ci hci
+  have a' : ((ci.nodePer : Int) + 1) ≤ 28 := by exact_mod_cast a
+  have b' : (ci.sizePer : Int) ≤ 28 := by exact_mod_cast b
+  have s0 : (0 : Int) ≤ (ci.sizePer : Int) := by positivity
+  have n0 : (0 : Int) ≤ (ci.nodePer : Int) + 1 := by positivity
+  unfold INT_MAX
+  refine ⟨by nlinarith, by nlinarith, by nlinarith, by nlinarith⟩
+
+/-! ### history: the reader before 4474557 trusted the counts (findings/partmeshb-count-*) -/
 
 /-- a 244-byte version-4 file that declares 2^32 tetrahedra -/
 def count2pow32File : Bytes :=
@@ -131,18 +196,21 @@ def countIntMaxFile : Bytes :=
    0, 8, 192, 1, 0, 0, 0, 8, 0, 0, 0, 176, 0, 0, 0, 255, 255, 255, 127, 1, 0, 0, 0, 2, 0, 0, 0, 3, 0, 0, 0, 4,
    0, 0, 0, 0, 0, 0, 0, 54, 0, 0, 0, 0, 0, 0, 0]
 
-/-- **"the reader returns on every file" is FALSE of the reader as it is**: with a declared count of 2^32 both
-    `chunk` and `section_size` are `(REF_INT)` casts that give 0, the loop `while (ncell_read < ncell)` makes no
-    progress (the model's `diverge`; the real reader is killed by the timeout on these bytes).  On 2 ranks
-    `chunk = (REF_INT)2^31` is negative and `size_per * chunk` overflows instead. -/
+/-- HISTORY: "the reader returns on every file" was FALSE of the reader before 4474557 (`parseCellsLegacy`: no
+    `ref_part_meshb_count_fits`): with a declared count of 2^32 both `chunk` and `section_size` were `(REF_INT)` casts
+    giving 0 and the loop made no progress; on 2 ranks `chunk = (REF_INT)2^31` was negative and `size_per * chunk`
+    overflowed.  The reader of today refuses the same bytes with `REF_FAILURE` on 1, 2 and 3 ranks. -/
 theorem partCell_count_loop_counterexample :
-    partRead 1 count2pow32File = .error .diverge ∧ partRead 2 count2pow32File = .error .undefined := by
+    parseCellsLegacy Cfg.current 1 chunkConst count2pow32File = .error .diverge ∧
+    parseCellsLegacy Cfg.current 2 chunkConst count2pow32File = .error .undefined ∧
+    [1, 2, 3].map (fun np => partRead np count2pow32File) = [.error .failure, .error .failure, .error .failure] := by
   decide +kernel
 
-/-- **"no undefined behaviour on a malformed file" is FALSE of the reader as it is**: `size_per * chunk` is computed
-    in `int` from the declared count before anything is read (the model's `undefined`; UBSan aborts the real reader
-    on these bytes at ref_part.c:439) -/
-theorem partCell_count_overflow_counterexample : partRead 1 countIntMaxFile = .error .undefined := by
+/-- HISTORY: `size_per * chunk` was computed in `int` from an unchecked declared count (2^31-1 tetrahedra in a
+    184-byte file: undefined behaviour, UBSan at ref_part.c:439); refused with `REF_FAILURE` today -/
+theorem partCell_count_overflow_counterexample :
+    parseCellsLegacy Cfg.current 1 chunkConst countIntMaxFile = .error .undefined ∧
+    [1, 2, 3].map (fun np => partRead np countIntMaxFile) = [.error .failure, .error .failure, .error .failure] := by
   decide +kernel
 
 end Refine.Props.C20PartMeshb
